@@ -165,6 +165,25 @@ func CheckAlloc() {
 		os.Exit(19)
 	}
 }
+// Registry maps harness names to functions for the native replay driver.
+var Registry = map[string]func(){}
+
+// Register adds a harness to the registry (usable in package-level var initialisers).
+func Register(name string, f func()) bool { Registry[name] = f; return true }
+
+// Replace redirects, under the executor, every call of the function with the given fully qualified
+// name to f (same signature): a summary or stub. Natively it does nothing: the replay runs the real code.
+func Replace(name string, f interface{}) {}
+
+// Original removes a replacement again.
+func Original(name string) {}
+
+// UFReal is an uninterpreted function of its arguments under the executor; natively it is native(args).
+func UFReal(name string, native func([]float64) float64, args ...float64) float64 { return native(args) }
+
+// Param is a bound that a debugging run may override on the command line (never in registered commands).
+func Param(name string, def int) int { return def }
+
 func Pick(quick, thorough_ int) int {
 	if thorough {
 		return thorough_
